@@ -98,3 +98,41 @@ def c11_markvars(R):
                 construct=f"{name}: exhausted mark for {e}",
             )
     R.need(n >= 3, f"only {n} exhausted marks found")
+
+
+@rule(
+    "C11.consult",
+    props=("C11",),
+    floor=2,
+    family="SIB",
+    desc="ModelCacheMixin.min/max, where they may answer from the cache on the strength of eval's exhaustion mark, read the "
+    "cached models with the completion eval counted with (allow_unconstrained follows membership in _eval_exhausted, or is "
+    "True): a value that only a partial model stands for may be the optimum",
+)
+def c11_consult(R):
+    tree = R.tree
+    m = tree.mod(MC)
+    n = 0
+    for name in ("min", "max"):
+        fn = util.resolve_locals(tree.func_inlined(MC, f"ModelCacheMixin.{name}", exclude=("_get_batch_solutions", "_get_models")))
+        reads = [c for c in walk_no_nested(fn) if isinstance(c, ast.Call) and isinstance(c.func, ast.Attribute) and c.func.attr in ("_get_solutions", "_get_batch_solutions")]
+        for c in reads:
+            facts = [re.sub(r"\s+", " ", ast.unparse(t)) for t, pol in guards.guards_of(c) if pol]
+            via_eval = any("_eval_exhausted" in f for f in facts)
+            if not via_eval:
+                continue
+            n += 1
+            au = next((k.value for k in c.keywords if k.arg == "allow_unconstrained"), None)
+            ok = au is None or (isinstance(au, ast.Constant) and au.value is True) or "_eval_exhausted" in ast.unparse(au)
+            R.check(
+                ok,
+                m,
+                c,
+                f"{name}: cache read with eval's completion",
+                f"ModelCacheMixin.{name} may answer from the cache because e is in _eval_exhausted, but reads the models with "
+                f"allow_unconstrained={ast.unparse(au) if au is not None else 'default'}: eval counted models that do not mention one "
+                f"of e's variables with a default value, this read skips them, and the value they stand for may be the optimum "
+                f"(add(x == 5); add(y >s 6); eval(y, 70); min(y) answered 1 instead of 0)",
+                construct=f"{name}: cached read under _eval_exhausted with allow_unconstrained={ast.unparse(au) if au is not None else 'default'}",
+            )
+    R.need(n >= 2, f"only {n} cache reads under _eval_exhausted found in min/max")
